@@ -122,6 +122,15 @@ CHECKS = {
         "The harness plays the resampling actor (answers each ComponentMetricRequest); all streams valid and in lock-step.",
         "DESIGN.md section 3 C12",
     ),
+    "C14": (
+        "Hypothesis model-based testing over request/completion schedules: the harness owns every completion of a probe ComponentManager; entered-request trace vs a two-slot reference model per group",
+        "Request bursts, slow and failing completions over 1-3 disjoint groups are generated; after every quiescence barrier the "
+        "sequence of requests that entered distribute_power must equal the (in flight, pending) model's, no two calls of a group "
+        "overlap, and after all completions are released the last request of every group has been applied (bounded liveness). "
+        "Exploration level.",
+        "A completion is separated from the next request by a barrier (their race has two legal outcomes); virtual-time loop.",
+        "DESIGN.md section 3 C14",
+    ),
     "C15": (
         "Hypothesis PBT with injected per-call API faults (5 outcomes per set_power call, all 5^n vectors for small n): accounting identities against recorded calls",
         "Real BatteryManager and PVManager on a fake API whose every set_power call returns, is rejected, errors, raises or "
